@@ -598,6 +598,11 @@ func run(c *core.Case) {
 			// ingest-buffer-tie: their relative order is not recency order and,
 			// as seen here, not even stable across a reopen).
 			sig = "C12|entry-changed|same-version-duplicates:ingest-buffer-tie"
+		case d.kind == "changed" && ingestCopiesAfter(ndb, r) >= 2:
+			// the reopened tree holds the (key, version) in two ingest-buffer tables
+			// (background compaction moved the L0 tables there during Open): the same
+			// recorded tie, observed on the layout the read was served from.
+			sig = "C12|entry-changed|same-version-duplicates:ingest-buffer-tie"
 		case d.kind == "changed" && strings.Contains(held, "l0c") && multi:
 			sig = "C12|entry-changed|same-version-duplicates:l0-compaction-output-tie"
 		}
@@ -746,4 +751,22 @@ func init() {
 			a.Floor("closes_with_greatest_version_only_in_ingest_buffer.txn", 5)
 		},
 	})
+}
+
+// ingestCopiesAfter counts the ingest-buffer tables of the reopened tree that
+// hold the record's (key, version).
+func ingestCopiesAfter(db *NoKV.DB, r *rec) int {
+	n := 0
+	for _, s := range db.VerifKeySources(kv.ColumnFamily(r.CF), []byte(r.Key)) {
+		if s.Kind != "ingest" {
+			continue
+		}
+		for _, en := range s.Entries {
+			if en.Version == r.Ver {
+				n++
+				break
+			}
+		}
+	}
+	return n
 }
